@@ -211,7 +211,19 @@ Definition glue_C10 (k : string) (a o : list value) : option verdict :=
                          | _ => false end in
             Some (functional [vbool known; vbool srcok; VZ (code_of r); VB (match r with Ok x => x | _ => [] end); VZ acc]
                              (VZ 1 :: VZ 1 :: o)
-                             (C10_encode_ok hdr uid cs phs key pt rnd ptkind ocode oacc))
+                             (C10_encode_ok hdr uid cs phs key pt rnd ptkind ocode oacc &&
+                              match src with
+                              | [VL pool] => match getBs pool with
+                                             | Some (c :: _) => C10_encode_src_ok 1 (length c) true 0 hdr uid key pt rnd ocode oacc
+                                             | _ => true end
+                              | [VL cookies; VB u] =>
+                                  match getBs cookies with
+                                  | Some (c0 :: rest) =>
+                                      let shape := forallb (fun c => (length c =? length c0)%nat) rest &&
+                                                   (length c0 mod 4 =? 0)%nat && bytes_eqb u uid in
+                                      C10_encode_src_ok 2 0 shape (length c0) hdr uid key pt rnd ocode oacc
+                                  | _ => true end
+                              | _ => true end))
         | _, _, _, _ => None end
     | _ => None end
   else if is k "nts.newresp" then
